@@ -56,7 +56,8 @@ def gen_case(rng, fam):
     return dict(fam=fam, sub=rng.randrange(1 << 30), order=order, nz=nz, nq=nq, deg=deg, uniform=uniform,
                 dz=rng.uniform(0.05, 30.0), z0=rng.uniform(-2, 2),
                 iota=rng.choice([0.8, -0.8, 0.3, 1.7, 25.0]) * rng.uniform(0.5, 1.5),
-                R0=rng.choice([None, 10.0, 239.8081535, 3.7]), r=sorted(rng.uniform(0.1, 14.5) for _ in range(5)),
+                # (the magnetic axis r = 0 may be a grid line: b_z = 1 there, the field-line shift iota dz k / R0 is still there)
+                R0=rng.choice([None, 10.0, 239.8081535, 3.7]), r=sorted([0.0 if rng.random() < 0.34 else rng.uniform(0.1, 14.5)] + [rng.uniform(0.1, 14.5) for _ in range(4)]),
                 nprocs=dist[0], rank=dist[1], perturb=(not uniform and rng.random() < 0.4))
 
 
@@ -166,6 +167,10 @@ def _run_case(chk, drv, case, stats):
     pg, bs, nz, nq, order = B['pg'], B['bs'], case['nz'], case['nq'], case['order']
     rng = B['rng']
     ri = int(rng.randint(B['nr']))
+    if case.get('look_at') == 'first':
+        ri = 0
+    elif case.get('look_at') == 'inner' and B['nr'] >= 3:
+        ri = B['nr'] // 2
     tag = dict(case, rIdx=ri)
     phi = rng.uniform(-1, 1, size=(nz, nq)) * rng.choice([1.0, 1e3, 1e-3])
     if case.get('strat', case['sub']) % 4 == 1:
@@ -288,6 +293,16 @@ def oracle(chk, case, B, tag, ri, phi, der):
         if not (np.abs(ga - gb) <= 2.0 ** -40 * max(1.0, float(np.abs(arr).max())) * unit).all():
             chk.fail('C13:input-dtype', 'a potential given as %s gives another result than the same values as float64' % nm, dict(tag, dtype=nm),
                      actual=float(np.abs(ga - gb).max()))
+    # the caller keeps ONE array for the potential and updates it in place between two calls (the buffer of a time loop): the second
+    # call sees the new values (here: doubled, a power of two, so the result doubles exactly)
+    buf = np.array(phi, copy=True)
+    gb1, gb2 = np.empty((nz, nq)), np.empty((nz, nq))
+    pg.parallel_gradient(buf, ri, gb1)
+    buf *= 2.0
+    pg.parallel_gradient(buf, ri, gb2)
+    if not np.array_equal(gb1, der) or not np.array_equal(gb2, 2.0 * der):
+        chk.fail('C13:same-array-updated-in-place', 'the same array object, updated in place between two calls, does not give the gradient of its '
+                 'new values', tag, actual=float(np.abs(gb2 - 2.0 * der).max()))
     # linearity
     a_, b_ = float(rng.uniform(-2, 2)), float(rng.uniform(-2, 2))
     p2 = rng.uniform(-1, 1, size=(nz, nq))
@@ -458,7 +473,16 @@ def run(chk):
         for it in range(chk.n(45, 450)):
             # `strat` (the position in the run, not a random number) decides which special features a case gets: every run of the check
             # has every feature, whatever the seed
-            run_case(chk, drv, dict(gen_case(chk.rng, 'generic'), strat=it), stats)
+            case_ = dict(gen_case(chk.rng, 'generic'), strat=it)
+            if it % 7 == 5:
+                # the magnetic axis r = 0 is the first grid line, held by this process, and it is the surface that is looked at
+                case_['r'] = [0.0] + sorted(case_['r'])[1:]
+                case_.update(nprocs=[1], rank=[0], look_at='first')
+            if it % 12 == 3:
+                # reversed shear (equal values of iota on the first and the last radius) with ALL radii on this process, looking at an
+                # inner surface
+                case_.update(nprocs=[1], rank=[0], look_at='inner')
+            run_case(chk, drv, case_, stats)
         fieldline_constants(chk)
         if not chk.quick():
             convergence_smoke(chk)
